@@ -8,8 +8,8 @@
    texts; the `_any` versions hold for arbitrary trees up to `erase`, which does nothing but read
    the tag name "emph" as "em" (the `external` flag of hyperlinks is NOT erased any more:
    defect F10 is fixed by 8ee055e). *)
-From Pybtex Require Import Base.Prelude Base.PyChar Base.PyStr Model.RtTypes Model.RichText
-  Spec.Flat Spec.FlatOps Proofs.RichText Proofs.RichSlice Proofs.RichOps Proofs.RichEq Proofs.RichWf Proofs.RichObs Proofs.RichSplit Proofs.RichInj.
+From Pybtex Require Import Base.Prelude Base.PyChar Base.PyStr Model.RtTypes Model.RichText Model.Backends
+  Spec.Flat Spec.FlatOps Proofs.RichText Proofs.RichSlice Proofs.RichOps Proofs.RichEq Proofs.RichWf Proofs.RichObs Proofs.RichSplit Proofs.RichInj Proofs.RichNormal Proofs.RichHist Proofs.RichRender.
 
 (* len(text) is the number of (character, markup) pairs of the rendering *)
 Theorem len_flat : forall t, rlen t = length (flat t).
@@ -123,14 +123,41 @@ Proof. exact markup_preserved. Qed.
 Print Assumptions markup_preserved_by_every_op.
 
 (* histories: every expression built from the constructors, upper, lower, capitalize, capfirst,
-   slices, +, append and join applied on top of one another in any way (`spec e` is defined)
-   evaluates without error to a well-formed text whose top-level markup and rendering are exactly
-   what the same operations give on plain pair sequences (`spec`, Spec/FlatOps.v).
-   Partial only in the operations covered: int index, add_period, abbreviate, split are not. *)
+   slices, int indices inside the bounds, +, append, join and add_period applied on top of one
+   another in any way (`spec e` is defined) evaluates without error to a text in normal form
+   whose top-level markup and rendering are exactly what the same operations give on plain pair
+   sequences (`spec`, Spec/FlatOps.v); len, str of the result are those of the sequence.
+   Partial only in what `spec` leaves out: an int index outside the bounds (str raises, multipart
+   texts do not: F23), split (cut positions at part boundaries: F17s; its content laws are the
+   split_* theorems, which hold for every value) and abbreviate (not in the property text). *)
 Theorem ops_compose_partial : forall e r, spec e = Some r ->
-  exists v, eval_c e = Ok v /\ wf v /\ top_markup v = fst r /\ flat v = snd r.
+  exists v, eval_c e = Ok v /\ good v /\ top_markup v = fst r /\ flat v = snd r.
 Proof. exact ops_compose_x. Qed.
 Print Assumptions ops_compose_partial.
+
+Theorem ops_compose_observers : forall e r, spec e = Some r -> exists v, eval_c e = Ok v /\
+  rlen v = length (snd r) /\ rstr v = flat_str (snd r).
+Proof. exact observe_compose. Qed.
+Print Assumptions ops_compose_observers.
+
+(* isalpha on a constructed text is str.isalpha on its characters *)
+Theorem isalpha_flat_thm : forall t, good t -> risalpha t = isalpha_flat (flat t).
+Proof. exact isalpha_flat_lem. Qed.
+Print Assumptions isalpha_flat_thm.
+
+(* every operation maps texts in normal form to texts in normal form (so every theorem stated
+   for `good` / `wf` texts applies along any history) *)
+Theorem good_preserved_by_every_op : forall t, good t ->
+  (forall up v, case_c up t = Ok v -> good v) /\
+  (forall k v, getitem_c t k = Ok v -> good v) /\
+  (forall x v, good x -> add t x = Ok v -> good v) /\
+  (forall x v, good x -> append t x = Ok v -> good v) /\
+  (forall xs v, Forall good xs -> rjoin t xs = Ok v -> good v) /\
+  (forall v, capfirst t = Ok v -> good v) /\
+  (forall v, capitalize t = Ok v -> good v) /\
+  (forall p v, add_period t p = Ok v -> good v).
+Proof. exact good_preserved. Qed.
+Print Assumptions good_preserved_by_every_op.
 
 (* `needle in text`: exact when the needle lies inside one String part (that is precisely when
    it is found), never a false positive, and -- documented limitation, finding F17 -- not found
@@ -202,6 +229,12 @@ Theorem split_pieces_keep_markup : forall t sep keep ps, is_multipart t = true -
 Proof. exact split_pieces_top. Qed.
 Print Assumptions split_pieces_keep_markup.
 
+(* the pieces of split are again texts in normal form: histories continue on them, and every
+   theorem stated for good texts applies to each piece *)
+Theorem split_pieces_good : forall t sep keep ps, good t -> split_c t sep keep = Ok ps -> Forall good ps.
+Proof. exact split_good. Qed.
+Print Assumptions split_pieces_good.
+
 Theorem split_no_empty_piece_refuted : exists t ps, split_c t SepNone None = Ok ps /\ exists p, In p ps /\ rlen p = 0.
 Proof. exact split_no_empty_refuted. Qed.
 Print Assumptions split_no_empty_piece_refuted.
@@ -215,11 +248,51 @@ Theorem eq_refl_all : forall a, rt_eqb a a = true.
 Proof. exact rt_eqb_refl. Qed.
 Print Assumptions eq_refl_all.
 
+(* mk_normal: whatever texts in normal form are given as parts, in whatever grouping or nesting,
+   the value the smart constructor returns is in normal form (no empty part, no nested Text, no two
+   neighbours with the same type information, strings merged) and well-formed *)
+Theorem mk_normal : forall k raw v, Forall good raw -> mkc k raw = Ok v -> good v.
+Proof. exact mkc_good. Qed.
+Print Assumptions mk_normal.
+
+(* "how parts were grouped or nested while building a text affects neither equality nor
+   rendering": two part lists with the same concatenated rendering build the same object, which
+   therefore compares equal and renders identically through every back end of Model/Backends.v *)
+Theorem grouping_irrelevant : forall k raw1 raw2 v1 v2, Forall good raw1 -> Forall good raw2 ->
+  concat (map flat raw1) = concat (map flat raw2) ->
+  mkc k raw1 = Ok v1 -> mkc k raw2 = Ok v2 -> v1 = v2.
+Proof. exact grouping_irrelevant_lem. Qed.
+Print Assumptions grouping_irrelevant.
+
+Theorem eq_complete : forall k raw1 raw2 v1 v2, Forall good raw1 -> Forall good raw2 ->
+  concat (map flat raw1) = concat (map flat raw2) ->
+  mkc k raw1 = Ok v1 -> mkc k raw2 = Ok v2 -> rt_eqb v1 v2 = true.
+Proof. intros. rewrite (grouping_irrelevant_lem k raw1 raw2 v1 v2); auto. apply rt_eqb_refl. Qed.
+Print Assumptions eq_complete.
+
+(* render_flat: through html / latex / markdown / plain text (any codec, any tables) the rendering
+   of a constructed text depends only on its class and its pair sequence; equal texts render
+   equally; regrouped constructions render equally *)
+Theorem render_flat : forall enc T b t1 t2, good t1 -> good t2 -> typeinfo t1 = typeinfo t2 ->
+  flat t1 = flat t2 -> render enc T b t1 = render enc T b t2.
+Proof. exact render_flat_lem. Qed.
+Print Assumptions render_flat.
+
+Theorem equal_texts_render_equally : forall enc T b t1 t2, rt_eqb t1 t2 = true ->
+  render enc T b t1 = render enc T b t2.
+Proof. exact equal_render_lem. Qed.
+Print Assumptions equal_texts_render_equally.
+
+Theorem grouping_render : forall enc T b k raw1 raw2 v1 v2, Forall good raw1 -> Forall good raw2 ->
+  concat (map flat raw1) = concat (map flat raw2) ->
+  mkc k raw1 = Ok v1 -> mkc k raw2 = Ok v2 -> render enc T b v1 = render enc T b v2.
+Proof. exact grouping_render_lem. Qed.
+Print Assumptions grouping_render.
+
 (* converse (flat_injective): two texts in the normal form the constructor produces (`normal`,
    Spec/FlatOps.v: parts non-empty, never a Text, normal, neighbours of different type
    information) of the same class with the same rendering are the same text, hence == .
-   Partial: that every constructed value is normal is not proved in Coq; it is checked by the
-   oracle on every value the implementation returns. *)
+   With mk_normal this applies to every constructed value (eq_complete above). *)
 Theorem flat_injective : forall a b, normal a = true -> normal b = true -> typeinfo a = typeinfo b ->
   flat a = flat b -> a = b.
 Proof. exact flat_injective_lem. Qed.
@@ -296,3 +369,11 @@ Example normal_example :
   = Ok (RText [RTag (s2l "em") [RStr (s2l "ab")]; RStr (s2l "cd")])
   /\ normal (RText [RTag (s2l "em") [RStr (s2l "ab")]; RStr (s2l "cd")]) = true.
 Proof. vm_compute. split; reflexivity. Qed.
+Example history_example :
+  spec (EAddPeriod (EIndex (EText [EStr (s2l "ab"); ETag (s2l "em") [EStr (s2l "c")]]) (-1)) (s2l "."))
+  = Some (None, [(ACh 99%N, [MTag (s2l "em")]); (ACh 46%N, [])]).
+Proof. vm_compute. reflexivity. Qed.
+Example grouping_example :
+  Forall good [RTag (s2l "em") [RStr (s2l "a")]; RText [RTag (s2l "em") [RStr (s2l "b")]; RStr (s2l "c")]]
+  /\ Forall good [RTag (s2l "em") [RStr (s2l "ab")]; RStr (s2l "c")].
+Proof. split; repeat constructor. Qed.
